@@ -38,6 +38,15 @@ def main():
         data = json.loads(Path(a.replay).read_text())
         rc = mod.replay(data) if hasattr(mod, "replay") else generic_replay(mod, data)
         sys.exit(rc)
+    # whole-check watchdog: a stuck run is an infrastructure failure (exit 2), never a verdict
+    import signal
+
+    def _alarm(signum, frame):
+        print(f"[{pid}] watchdog: check exceeded its time budget (not a verdict)")
+        os._exit(2)
+
+    signal.signal(signal.SIGALRM, _alarm)
+    signal.alarm(int(os.environ.get("XV_BUDGET_S", "1500" if tier == "quick" else "14400")))
     rep = Report(pid, tier, manifest_level(pid))
     from harness.pool import Pool
 
